@@ -127,7 +127,7 @@ pub fn gen_step(rng: &mut Rng, i: usize, s: &State, flavour: Flavour, max_steps:
         }
     };
     let mut tx = single(op, rng);
-    if s.kinds != 0 && matches!(flavour, Flavour::Sews | Flavour::Edits) && rng.chance(0.12) {
+    if s.kinds != 0 && matches!(flavour, Flavour::Sews | Flavour::Edits | Flavour::Queries) && rng.chance(0.12) {
         tx.f1 = vec![1 + rng.below(5) as u32];
     }
     if rng.chance(0.15) {
